@@ -179,7 +179,8 @@ def _append_state(run, ix):
             n += 1
             reset = False
             for st in ast.walk(loop):
-                if isinstance(st, ast.Assign) and any(isinstance(t, ast.Name) and t.id == name for t in st.targets):
+                if (isinstance(st, ast.Assign) and any(isinstance(t, ast.Name) and t.id == name for t in st.targets)) or \
+                        (isinstance(st, ast.AnnAssign) and st.value is not None and isinstance(st.target, ast.Name) and st.target.id == name):
                     reset = True
                 elif isinstance(st, ast.Call) and isinstance(st.func, ast.Attribute) and st.func.attr == "clear" \
                         and isinstance(st.func.value, ast.Name) and st.func.value.id == name:
